@@ -15,6 +15,7 @@ pub mod c13;
 pub mod c14;
 pub mod c17;
 pub mod c18;
+pub mod c20;
 
 macro_rules! registry {
     ($( $id:literal => $ctor:expr ),* $(,)?) => {
@@ -54,4 +55,5 @@ registry! {
     "C14" => c14::C14,
     "C17" => c17::C17,
     "C18" => c18::C18,
+    "C20" => c20::C20,
 }
